@@ -158,7 +158,11 @@ func forbiddenTokens() []string {
 }
 
 // properties whose Lean targets import Gen/ScannerTable.lean
-var usesScannerTable = map[string]bool{"C01": true, "C05": true, "C14": true, "C17": true}
+var usesScannerTable = map[string]bool{"C01": true, "C05": true, "C14": true, "C15": true, "C17": true}
+
+// properties whose models rest on Gen/ParamTable.lean (the regenerated table of directive/parameter.go AppendParameter:
+// C17 reads values back through it, C04 builds the catalog from the parameters it stores)
+var usesParamTable = map[string]bool{"C17": true, "C04": true}
 
 var reAxioms = regexp.MustCompile(`(?m)^'(.+)' (depends on axioms: \[([^\]]*)\]|does not depend on any axioms)`)
 
@@ -170,6 +174,12 @@ func obligations(ctx *Ctx, pc *propCheck) {
 			// about the scanner table; the others do not read that table
 			if strings.HasPrefix(p, "scanner ") && !usesScannerTable[ctx.Prop] {
 				ctx.Cov.Notes = append(ctx.Cov.Notes, "translator (scanner table, not used by this property): "+p)
+				continue
+			}
+			// likewise a construct of AppendParameter outside the translated subset concerns the properties that
+			// depend on the parameter table
+			if strings.HasPrefix(p, "paramtable: ") && !usesParamTable[ctx.Prop] {
+				ctx.Cov.Notes = append(ctx.Cov.Notes, "translator (parameter table, not used by this property): "+p)
 				continue
 			}
 			ctx.Break("extract: " + p)
